@@ -45,6 +45,8 @@ type LoadOpts struct {
 	Overlay map[string][]byte // packages overlay
 	Variant string
 	Syntax  bool // LoadSyntax only (no deps' syntax) – cheaper
+	Pattern string // default "./..."
+	// AllowErrorsIn: package rel paths whose type errors are tolerated (none by default)
 }
 
 func baseEnv() []string {
@@ -98,7 +100,11 @@ func Load(o LoadOpts) (*Prog, error) {
 	if o.Tags != "" {
 		cfgp.BuildFlags = []string{"-tags=" + o.Tags}
 	}
-	roots, err := packages.Load(cfgp, "./...")
+	pat := o.Pattern
+	if pat == "" {
+		pat = "./..."
+	}
+	roots, err := packages.Load(cfgp, pat)
 	if err != nil {
 		return nil, fmt.Errorf("packages.Load: %w", err)
 	}
